@@ -117,6 +117,13 @@ func (c *Conv) Apply(inputs []tensor.Tensor) ([]tensor.Tensor, error) {
 		c.setPaddingWithAutoPad(x)
 	}
 
+	for i := range c.kernelShape {
+		if nNonSpatialDims+i < len(x.Shape()) && i+len(c.kernelShape) < len(c.pads) &&
+			x.Shape()[nNonSpatialDims+i]+c.pads[i]+c.pads[i+len(c.kernelShape)] < c.kernelShape[i] {
+			return nil, ops.ErrInvalidInput("the (dilated) kernel does not fit in the padded input", c)
+		}
+	}
+
 	var out tensor.Tensor
 
 	switch len(x.Shape()) {
